@@ -325,6 +325,54 @@ func runJanitorCase(res *result, r rng, jc janCase, idx int64) {
 	fp := newFP()
 	fp.addStr(jc.desc)
 	if jc.interval > 0 {
+		// entries with TTLs spread over several intervals; nobody touches a key afterwards.
+		// They are stored before the janitor's time source is looked for (a janitor may be
+		// started lazily by the first write) and through one of the storing calls per case.
+		writeWith := r.intn(6)
+		type ent struct {
+			k int
+			v any
+			e int64
+		}
+		var ents []ent
+		n := r.between(3, 40)
+		for k := 0; k < n; k++ {
+			v := nextVal(k)
+			var d time.Duration
+			switch r.intn(4) {
+			case 0:
+				d = cache.NoExpiration
+			case 1:
+				d = jc.interval*time.Duration(r.between(0, 4)) + time.Duration(r.between(1, 1000))
+				if jc.interval == 1 {
+					d = time.Duration(r.between(1, 6))
+				}
+			case 2:
+				d = time.Duration(r.between(1, 3))
+			default:
+				d = jc.interval * 100
+			}
+			if k == 0 {
+				d = jc.interval*2 + 5 // at least one entry that can expire (a janitor may be started on demand)
+			}
+			switch writeWith {
+			case 1:
+				c.GetOrSet(k, v, d)
+			case 2:
+				c.GetAndSet(k, v, d)
+			case 3:
+				c.GetOrCompute(k, func() any { return v }, d)
+			case 4:
+				c.Compute(k, func(any, bool) (any, bool) { return v, false }, d)
+			default:
+				c.Set(k, v, d)
+			}
+			e := int64(0)
+			if d > 0 {
+				e = epoch + int64(d)
+			}
+			ents = append(ents, ent{k, v, e})
+		}
 		tks := waitTicker(1)
 		if len(tks) != 1 {
 			bad("no janitor although the cleanup interval is positive", fmt.Sprintf("%d tickers registered", len(tks)))
@@ -351,37 +399,6 @@ func runJanitorCase(res *result, r rng, jc janCase, idx int64) {
 		case 1:
 			c.SetEvictedCallback(nil)
 			curID = 0
-		}
-		// entries with TTLs spread over several intervals; nobody touches a key afterwards
-		type ent struct {
-			k int
-			v any
-			e int64
-		}
-		var ents []ent
-		n := r.between(3, 40)
-		for k := 0; k < n; k++ {
-			v := nextVal(k)
-			var d time.Duration
-			switch r.intn(4) {
-			case 0:
-				d = cache.NoExpiration
-			case 1:
-				d = jc.interval*time.Duration(r.between(0, 4)) + time.Duration(r.between(1, 1000))
-				if jc.interval == 1 {
-					d = time.Duration(r.between(1, 6))
-				}
-			case 2:
-				d = time.Duration(r.between(1, 3))
-			default:
-				d = jc.interval * 100
-			}
-			c.Set(k, v, d)
-			e := int64(0)
-			if d > 0 {
-				e = epoch + int64(d)
-			}
-			ents = append(ents, ent{k, v, e})
 		}
 		removed := map[int]bool{}
 		ticks := r.between(3, 8)
@@ -482,6 +499,9 @@ func runJanitorCase(res *result, r rng, jc janCase, idx int64) {
 	}
 	vshim.SetVNow(epoch + int64(time.Hour))
 	settle()
+	if tks := vshim.Tickers(); len(tks) != 0 {
+		bad("janitor started although the cleanup interval is <= 0", fmt.Sprintf("%d tickers registered after the first writes (period %d)", len(tks), tks[0].Period))
+	}
 	if cnt := c.Count(); cnt != n {
 		bad("entries removed without janitor and without any access", fmt.Sprintf("Count()=%d, stored %d", cnt, n))
 	}
@@ -544,6 +564,7 @@ func runLifetime(res *result, r rng, idx int64) {
 		probeSp.Callback = func(int, any) {}
 	}
 	probe := newCache(probeSp)
+	probe.Set(0, nextVal(0), time.Hour)
 	waitRegistered(1)
 	settle()
 	perCache := runtime.NumGoroutine() - base
@@ -567,7 +588,11 @@ func runLifetime(res *result, r rng, idx int64) {
 			for k := 0; k < 3; k++ {
 				s := &sentinel{buf: make([]byte, 1<<18)}
 				runtime.SetFinalizer(s, func(*sentinel) { atomic.AddInt64(&sentinelsFreed, 1) })
-				c.Set(k, s, pick(r, []time.Duration{time.Hour, 1, cache.NoExpiration}))
+				ttl := pick(r, []time.Duration{time.Hour, 1, cache.NoExpiration})
+				if k == 0 {
+					ttl = time.Hour // at least one entry that can expire
+				}
+				c.Set(k, s, ttl)
 				nsent++
 			}
 			if active {
@@ -664,14 +689,14 @@ func janitorPair(res *result, flavor string) {
 		vshim.ResetTickers()
 		led := &ledger{}
 		c := newCache(cacheSpec{Flavor: flavor, Ctor: "New", OptMask: 1 | 2 | 4, DefExp: time.Hour, Interval: interval, NKeys: 64, Callback: led.cb(1)})
-		tks := waitTicker(1)
-		if len(tks) != 1 {
-			return c, nil, led
-		}
 		for k := 10; k < 14; k++ {
 			c.SetForever(k, nextVal(k))
 		}
 		c.Set(1, nextVal(1), 5) // something for the pass to remove
+		tks := waitTicker(1)
+		if len(tks) != 1 {
+			return c, nil, led
+		}
 		return c, tks[0], led
 	}
 	pollToken := func() *vshim.ParkToken {
@@ -789,15 +814,15 @@ func fastTicker(res *result, flavor string) {
 	vshim.ResetTickers()
 	led := &ledger{}
 	c := newCache(cacheSpec{Flavor: flavor, Ctor: "New", OptMask: 1 | 2 | 4, DefExp: time.Hour, Interval: interval, NKeys: 256, Callback: led.cb(1)})
-	if len(waitTicker(1)) != 1 {
-		return
-	}
 	const n = 60
 	exp := make([]int64, n)
 	for k := 0; k < n; k++ {
 		d := interval*time.Duration(k%20+1) + time.Duration(k)
 		c.Set(k, nextVal(k), d)
 		exp[k] = epoch + int64(d)
+	}
+	if len(waitTicker(1)) != 1 {
+		return
 	}
 	logCase("janitor fast-ticker %s", flavor)
 	res.Evaluations++
